@@ -1,10 +1,10 @@
 (* C16 — Every address has one zone and one ledger, respected by all state.
    Property theorems only: each is closed by [exact <lemma>] and followed by
-   [Print Assumptions].  Model: Model/C16.v  Lemmas: Proofs/C16.v, Proofs/C16_Sender.v  Generated data: Generated/C16Sites.v
+   [Print Assumptions].  Model: Model/C16.v  Lemmas: Proofs/C16.v, Proofs/C16_Sender.v, Proofs/C16_QiTx.v  Generated data: Generated/C16Sites.v
    [bytes_to_address] is the model of the CURRENT common.BytesToAddress (Model.C16.fix_applied = true: F10 is
    repaired in the tree; the *_refuted theorems speak about [bytes_to_address_gen false] explicitly). *)
 From Coq Require Import List NArith Bool.
-From GQ Require Import Lib.Key Model.C16 Generated.C16Sites Proofs.C16 Proofs.C16_Sender.
+From GQ Require Import Lib.Key Model.C16 Generated.C16Sites Proofs.C16 Proofs.C16_Sender Proofs.C16_QiTx.
 Import ListNotations.
 Local Open Scope N_scope.
 
@@ -221,6 +221,83 @@ Theorem qi_utxo_owner_is_in_zone_qi_address_refuted :
 Proof. exact qi_utxo_owner_refuted_lemma. Qed.
 Print Assumptions qi_utxo_owner_is_in_zone_qi_address_refuted.
 
+(* ---- a WHOLE Qi transaction through ProcessQiTx (extension round): [qi_process l owners outs data ptn]
+   = the three data guards, the output loop with the shared `addresses` set (seeded with the owners of
+   the spent inputs) and the conversion / wrapping flags, the fork params.QiWrappingChangeBlock, the
+   kQuai hold intervals and the aggregated ETX.  For every output list, data, zone, prime terminus. *)
+
+(* From the fork on, every UTXO an accepted transaction creates is one of its outputs and the 20 bytes
+   it is classified by are an in-zone Qi-ledger address. *)
+Theorem qi_tx_utxos_only_for_in_zone_qi_after_fork : forall l owners outs data ptn evs idx owner,
+  valid_zone l -> Forall wf_bytes outs ->
+  C16Sites.qi_wrapping_change_block <= ptn ->
+  qi_process l owners outs data ptn = Some evs -> In (EvUtxo idx owner) evs ->
+  In owner outs /\ in_zone (to20 owner) l = true /\ is_qi (to20 owner) = true /\ is_quai (to20 owner) = false.
+Proof. exact qi_process_utxo_after_fork. Qed.
+Print Assumptions qi_tx_utxos_only_for_in_zone_qi_after_fork.
+
+(* Full statement (no fork premise) is FALSE for the code: before params.QiWrappingChangeBlock the
+   wrapping branch falls through to the local-UTXO part, and a UTXO owned by an in-zone QUAI-ledger
+   address is written (witness replayed on the real ProcessQiTx by the harness corpus). *)
+Theorem qi_tx_utxo_for_quai_address_before_fork_refuted :
+  exists l owners outs data ptn evs owner,
+    valid_zone l /\ Forall wf_bytes outs /\ qi_process l owners outs data ptn = Some evs
+    /\ In (EvUtxo 0 owner) evs /\ List.length owner = 20%nat /\ is_qi owner = false /\ is_quai owner = true.
+Proof. exact qi_wrap_before_fork_refuted_lemma. Qed.
+Print Assumptions qi_tx_utxo_for_quai_address_before_fork_refuted.
+
+(* The strongest statement true in every fork regime: a UTXO owner is always in the zone, and it is a
+   Quai-ledger address only through the wrapping branch (20 data bytes) before the fork. *)
+Theorem qi_tx_utxos_in_zone_partial : forall l owners outs data ptn evs idx owner,
+  valid_zone l -> Forall wf_bytes outs ->
+  qi_process l owners outs data ptn = Some evs -> In (EvUtxo idx owner) evs ->
+  In owner outs /\ in_zone (to20 owner) l = true
+  /\ (is_qi (to20 owner) = true
+      \/ (ptn < C16Sites.qi_wrapping_change_block /\ List.length data = 20%nat /\ is_quai (to20 owner) = true)).
+Proof. exact qi_process_utxo_any_fork. Qed.
+Print Assumptions qi_tx_utxos_in_zone_partial.
+
+(* Every ETX of an accepted transaction: an ordinary one (type 0) goes to a 20-byte FOREIGN-zone Qi
+   address held as an external object; the aggregated conversion / wrapping ETX goes to a 20-byte
+   IN-zone Quai address held as an internal object. *)
+Theorem qi_tx_etx_targets : forall l owners outs data ptn evs ty idx cls to,
+  valid_zone l -> Forall wf_bytes outs ->
+  qi_process l owners outs data ptn = Some evs -> In (EvEtx ty idx cls to) evs ->
+  List.length to = 20%nat
+  /\ (ty = 0 -> in_zone to l = false /\ is_qi to = true /\ is_quai to = false /\ cls = 1)
+  /\ (ty <> 0 -> in_zone to l = true /\ is_quai to = true /\ is_qi to = false /\ cls = 0).
+Proof. exact qi_process_etx. Qed.
+Print Assumptions qi_tx_etx_targets.
+
+(* A Quai-ledger output that is not an in-zone conversion / wrapping output makes the WHOLE transaction
+   fail, wherever it stands in the output list and whatever the other outputs, owners and fork are. *)
+Theorem qi_tx_rejects_quai_output_anywhere : forall l owners outs data ptn addr,
+  valid_zone l -> In addr outs -> wf_bytes addr -> is_quai (to20 addr) = true ->
+  (in_zone (to20 addr) l = false \/ (List.length data <> 20%nat /\ List.length data <> 22%nat)) ->
+  qi_process l owners outs data ptn = None.
+Proof. exact qi_process_rejects_quai_output. Qed.
+Print Assumptions qi_tx_rejects_quai_output_anywhere.
+
+(* The one-output transaction agrees with the classification [qi_output] of the earlier theorems for
+   every data length (the 20 / 22 branches are now tied to the code through IQiTx cases). *)
+Theorem qi_tx_single_output_agrees_with_classification : forall l owners addr data ptn,
+  (qi_output addr (N.of_nat (List.length data)) l = QReject -> qi_process l owners [addr] data ptn = None)
+  /\ (forall evs, qi_process l owners [addr] data ptn = Some evs ->
+      match qi_output addr (N.of_nat (List.length data)) l with
+      | QUtxo => evs = [EvUtxo 0 addr]
+      | QEtx => evs = [EvEtx 0 0 (class_of addr l) (to20 addr)]
+      | QConvert => evs = [EvEtx 1 0 (class_of (to20 addr) l) (to20 addr)]
+      | QWrap => if wrap_skips ptn then evs = [EvEtx 2 0 (class_of (to20 addr) l) (to20 addr)]
+                 else evs = [EvUtxo 0 addr; EvEtx 2 0 (class_of (to20 addr) l) (to20 addr)]
+      | QReject => False
+      end).
+Proof.
+  intros l owners addr data ptn. split.
+  - exact (qi_process_single_reject l owners addr data ptn).
+  - exact (qi_process_single_accept l owners addr data ptn).
+Qed.
+Print Assumptions qi_tx_single_output_agrees_with_classification.
+
 (* ---- addresses handed out from stored / cached bytes: the sender cache of a transaction ----
    [run_ops t st_init ops] = any history of Sender / SignerV1.Sender / From / SetFrom / Hash /
    AsMessage / FromChain calls on one *Transaction object, by signers of any chain id and location. *)
@@ -303,6 +380,22 @@ Example qi_output_nonvacuous :
   qi_output (16 :: 200 :: repeat 7 18) 0 [1; 0] = QUtxo /\ qi_output (16 :: 200 :: repeat 7 18) 0 [0; 0] = QEtx
   /\ qi_output zone10_address 0 [1; 0] = QReject /\ qi_output zone10_address 22 [1; 0] = QConvert
   /\ qi_output zone10_address 20 [1; 0] = QWrap.
+Proof. vm_compute. auto. Qed.
+
+(* an accepted five-output conversion at zone (1,2) after the fork: UTXO, two converted outputs to the
+   same address (aggregated), a cross-zone ETX, then the aggregate ETX; the same outputs with a second,
+   different conversion address, or inside a kQuai hold interval, are rejected *)
+Example qi_tx_nonvacuous :
+  let q := 18 :: 5 :: repeat 7 18 in
+  let u := 18 :: 200 :: repeat 1 18 in
+  let f := 33 :: 200 :: repeat 2 18 in
+  let d := 0 :: 5 :: 18 :: 200 :: repeat 4 18 in
+  qi_process [1; 2] [] [u; q; f; q] d 1570000
+    = Some [EvUtxo 0 u; EvEtx 0 2 1 f; EvEtx 1 0 0 q]
+  /\ qi_process [1; 2] [] [u; q; f; 18 :: 6 :: repeat 7 18] d 1570000 = None
+  /\ qi_process [1; 2] [] [u; q; f; q] d 1755000 = None
+  /\ qi_process [1; 2] [u] [u; q; f; q] d 1570000 = None
+  /\ qi_process [1; 2] [] [u; f; u] [] 1570000 = None.
 Proof. vm_compute. auto. Qed.
 
 Example f10_sites_nonvacuous : List.length f10_site_list = 8%nat.
